@@ -182,15 +182,20 @@ def modseq_of(steps, upto=None):
 class Zygote(object):
     """A process forked before any statement was executed. Per request it forks a pristine child that takes
     its own copy of the database, runs the given history and reports the results."""
-    def __init__(self):
+    def __init__(self, close_in_child=()):
         self.req_r, self.req_w = os.pipe()
         self.res_r, self.res_w = os.pipe()
         self.pid = os.fork()
         if self.pid == 0:
             try:
                 os.close(self.req_w); os.close(self.res_r)
+                for fd in close_in_child:       # pipe ends of the zygotes created before this one
+                    try: os.close(fd)
+                    except OSError: pass
                 inp = os.fdopen(self.req_r, 'r')
-                for line in inp:
+                while True:
+                    line = inp.readline()
+                    if not line or line.strip() == 'quit': break
                     steps = [tuple(s) for s in json.loads(line)]
                     pid = os.fork()
                     if pid == 0:
@@ -220,13 +225,19 @@ class Zygote(object):
         d = json.loads(self.inp.readline())
         if 'error' in d: raise core.HarnessError('pristine child failed: %s' % d['error'])
         return d['res'], d['tainted']
+    def fds(self): return (self.req_w, self.res_r)
     def close(self):
-        try: self.out.close(); self.inp.close(); os.waitpid(self.pid, 0)
+        try: self.out.write('quit\n'); self.out.flush()
+        except Exception: pass
+        try: self.out.close(); self.inp.close()
+        except Exception: pass
+        try: os.waitpid(self.pid, 0)
         except Exception: pass
 
 class Zygotes(object):
     def __init__(self, n):
-        self.z = [Zygote() for i in range(n)]
+        self.z = []
+        for i in range(n): self.z.append(Zygote([fd for z in self.z for fd in z.fds()]))
     def map(self, histories):
         """results in order; the zygotes work concurrently (one thread each, blocked on its pipe)"""
         out = [None] * len(histories)
